@@ -6,6 +6,7 @@ package main
 import (
 	"fmt"
 	"go/token"
+	"go/types"
 	"strings"
 
 	"golang.org/x/tools/go/ssa"
@@ -845,6 +846,7 @@ func runC07(c *Ctx) {
 	ruleStdlibPreconditions(c, "R07.i")
 	ruleAdmissionBalanced(c, "R07.j")
 	ruleReplyBufferLocal(c, "R07.d")
+	ruleNoConcurrentMapAccess(c, "R07.l")
 	ruleNilNilDeref(c, "R07.e")
 	ruleNoReentrantLock(c, buildSyncModel(c), "R07.f")
 	ruleNoWriteUnderReadLock(c, "R07.g")
@@ -865,6 +867,7 @@ func runC19(c *Ctx) {
 	ruleNoLockAcrossBlocking(c, buildSyncModel(c), "R19.f")
 	ruleAcceptLoopEndsWithListener(c, "R19.g")
 	ruleAcceptLoopWaits(c, "R19.k")
+	ruleNoAliasedSnapshots(c, "R19.l")
 	// a loop that can spin keeps its goroutine, socket and registry entry for ever
 	ruleLoopProgress(c, "R19.h")
 	c.assume("a peer that stops reading keeps the goroutine blocked in Write until it goes away (no write deadline exists); not a leak once the peer is gone")
@@ -1011,6 +1014,21 @@ func ruleStopSweep(c *Ctx, rid string) {
 				})
 				if !addBefore || !waitAfter {
 					problems = append(problems, "connections are closed in goroutines that Stop does not provably join (WaitGroup.Add must precede each go statement and Wait must follow the loop): Stop can return with connections still open")
+				}
+			}
+			// what is swept is the whole snapshot, not a part of it
+			for _, b := range l.sortedBlocks() {
+				for _, ins := range b.Instrs {
+					ia, ok := ins.(*ssa.IndexAddr)
+					if !ok {
+						continue
+					}
+					if sl, isSl := ia.X.Type().Underlying().(*types.Slice); !isSl || !strings.HasSuffix(sl.Elem().String(), "redis.Conn") {
+						continue
+					}
+					if why := c.P.partOfSnapshot(ia.X, 0, map[ssa.Value]bool{}); why != "" {
+						problems = append(problems, why)
+					}
 				}
 			}
 			if len(problems) == 0 {
@@ -1478,4 +1496,128 @@ func ruleStdlibPreconditions(c *Ctx, rid string) {
 	if n == 0 {
 		c.ok(rid, "no-precondition-sites", "", "no call of a standard-library function with a positivity precondition in production code")
 	}
+}
+
+// partOfSnapshot: "" when the slice is a whole snapshot (the result of a call, or a parameter
+// that every static caller hands a whole snapshot, or parts cut by the stepping idiom
+// lo := 0; lo < len(s); lo += n with hi = min(lo+n, len(s))); otherwise what was found.
+func (p *Program) partOfSnapshot(v ssa.Value, d int, seen map[ssa.Value]bool) string {
+	v = strip(v)
+	if d > 6 || seen[v] {
+		return ""
+	}
+	seen[v] = true
+	switch x := v.(type) {
+	case *ssa.Slice:
+		if x.Low == nil && x.High == nil {
+			return p.partOfSnapshot(x.X, d+1, seen)
+		}
+		if steppingCut(x) {
+			return p.partOfSnapshot(x.X, d+1, seen)
+		}
+		return fmt.Sprintf("the sweep runs over a part of the snapshot cut at %s; that the parts cover the snapshot is not established (only lo := 0; lo < len(s); lo += n with hi = min(lo+n, len(s)) is read)", p.instrPos(x))
+	case *ssa.Phi:
+		for _, e := range x.Edges {
+			if why := p.partOfSnapshot(e, d+1, seen); why != "" {
+				return why
+			}
+		}
+	case *ssa.Parameter:
+		fn := x.Parent()
+		idx := -1
+		for i, q := range fn.Params {
+			if q == x {
+				idx = i
+			}
+		}
+		for _, ci := range p.staticCallSites(fn) {
+			if idx >= 0 && idx < len(ci.Common().Args) {
+				if why := p.partOfSnapshot(ci.Common().Args[idx], d+1, seen); why != "" {
+					return why
+				}
+			}
+		}
+	case *ssa.FreeVar:
+		fn := x.Parent()
+		for i, fv := range fn.FreeVars {
+			if fv != x || fn.Parent() == nil {
+				continue
+			}
+			var why string
+			allInstrs(fn.Parent(), func(ins ssa.Instruction) {
+				if mc, ok := ins.(*ssa.MakeClosure); ok && mc.Fn == ssa.Value(fn) && i < len(mc.Bindings) && why == "" {
+					why = p.partOfSnapshot(mc.Bindings[i], d+1, seen)
+				}
+			})
+			return why
+		}
+	case *ssa.UnOp:
+		if a, ok := x.X.(*ssa.Alloc); ok && x.Op == token.MUL {
+			for _, st := range allocStores(a) {
+				if why := p.partOfSnapshot(st.Val, d+1, seen); why != "" {
+					return why
+				}
+			}
+		}
+		if fv, ok := x.X.(*ssa.FreeVar); ok && x.Op == token.MUL {
+			return p.partOfSnapshot(fv, d+1, seen)
+		}
+	}
+	return ""
+}
+
+// steppingCut: s[lo:hi] with lo a loop counter from 0 stepped by n and hi = min(lo+n, len(s)).
+func steppingCut(sl *ssa.Slice) bool {
+	if sl.Low == nil || sl.High == nil {
+		return false
+	}
+	lo, ok := strip(sl.Low).(*ssa.Phi)
+	if !ok {
+		return false
+	}
+	var step ssa.Value
+	zero := false
+	for _, e := range lo.Edges {
+		if k, isK := constInt(e); isK && k == 0 {
+			zero = true
+			continue
+		}
+		if bo, isBO := strip(e).(*ssa.BinOp); isBO && bo.Op == token.ADD && strip(bo.X) == ssa.Value(lo) {
+			step = strip(bo.Y)
+		}
+	}
+	if !zero || step == nil {
+		return false
+	}
+	call, ok := strip(sl.High).(*ssa.Call)
+	if !ok {
+		return false
+	}
+	b, isB := call.Call.Value.(*ssa.Builtin)
+	if !isB || b.Name() != "min" || len(call.Call.Args) != 2 {
+		return false
+	}
+	sum, ln := false, false
+	for _, a := range call.Call.Args {
+		a = strip(a)
+		if bo, isBO := a.(*ssa.BinOp); isBO && bo.Op == token.ADD && ((strip(bo.X) == ssa.Value(lo) && sameValue(strip(bo.Y), step)) || (strip(bo.Y) == ssa.Value(lo) && sameValue(strip(bo.X), step))) {
+			sum = true
+		}
+		if lc, isC := a.(*ssa.Call); isC {
+			if lb, isLB := lc.Call.Value.(*ssa.Builtin); isLB && lb.Name() == "len" && len(lc.Call.Args) == 1 && strip(lc.Call.Args[0]) == strip(sl.X) {
+				ln = true
+			}
+		}
+	}
+	return sum && ln
+}
+
+// sameValue: the same SSA value, or two integer constants of equal value (go/ssa does not share them).
+func sameValue(a, b ssa.Value) bool {
+	if a == b {
+		return true
+	}
+	ka, okA := constInt(a)
+	kb, okB := constInt(b)
+	return okA && okB && ka == kb
 }
